@@ -3,8 +3,9 @@ CONSTANTS
   Reqs <- Reqs2
   Parts <- P11
   RegAfter <- RegFirst
+  KeyOf <- IdKey
   Dups = {3}
   LookupAtomic = TRUE
   FailIdx = {}
-INVARIANTS NoSpurious MatchOnce NoLoss Emit
+INVARIANTS NoSpurious MatchOnce NoLoss RightType Emit
 CHECK_DEADLOCK FALSE
